@@ -1,6 +1,6 @@
 (* C06  Removed sources are gone for good; their tokens die; everything is released once. *)
 From CV Require Import Base Consts Token PostAction Env Loop.
-From CVP Require Import Loop_frames Seq_lemmas Env_lemmas.
+From CVP Require Import Loop_frames Seq_lemmas Env_lemmas C06_proofs.
 Open Scope N_scope.
 
 (* remove(): right afterwards the handle's token no longer resolves to a source *)
@@ -34,7 +34,38 @@ Qed.
 Theorem C06_released_after_processing : forall s o, running (end_processing s o) = None /\ zombies (end_processing s o) = zombies (end_processing s o).
 Proof. intros s o. split; [apply running_end_processing|reflexivity]. Qed.
 
+(* WHOLE HISTORIES. Between any two states of any scenario (any commands, any scripted callbacks, dispatches, idles) every
+   slot only moves forward: a later generation, or the same generation with the same token and the same source or none
+   (`sstep`); slots stay well formed (token = (index, generation mod 2^16, 0)). Hence: a token of the current or a past
+   generation of its slot (`issued`) that does not resolve to a source now never resolves again, as long as the slot has
+   been reused fewer than 65536 times (`gens_small`, the property's own bound). lc_lookup is the generation-checked lookup
+   used for every event and every enable/disable/update/remove. *)
+Theorem C06_slots_only_move_forward : forall scr bscr cmds s, sstep (slots s) (slots (fold_left (exec_cmd scr bscr) cmds s)).
+Proof. intros scr bscr cmds s. apply exec_cmds_sstep. Qed.
+Theorem C06_token_dead_forever : forall scr bscr cmds1 cmds2 t,
+  gens_small (slots (run scr bscr (cmds1 ++ cmds2))) -> issued (slots (run scr bscr cmds1)) t ->
+  lc_lookup (run scr bscr cmds1) t = None -> lc_lookup (run scr bscr (cmds1 ++ cmds2)) t = None.
+Proof. exact token_dead_forever_run. Qed.
+Theorem C06_dead_token_dead_handle : forall s h t, toks s h = Some t -> lc_lookup s t = None -> lookup s h = None.
+Proof. exact lookup_none_of_dead. Qed.
+
 Example C06_nonvacuous :
   let s := run (fun _ => []) (fun _ => []) [CAct (ANewPing 1 10); CAct (AInsert 1 (SPing (mkGen 10 (mkInt true false) Level None false)))] in
   halted s = false /\ lookup s 1 <> None /\ lookup (exec_action s (ARemove 1)) 1 = None.
 Proof. vm_compute. repeat split; discriminate. Qed.
+(* the premises of C06_token_dead_forever are met by a real history: insert, remove, and a second insert that reuses the slot *)
+Example C06_forever_nonvacuous :
+  let g := mkGen 10 (mkInt true false) Level None false in
+  let c1 := [CAct (ANewPing 1 10); CAct (AInsert 1 (SPing g)); CAct (ARemove 1)] in
+  let c2 := [CAct (ANewPing 2 11); CAct (AInsert 2 (SPing (mkGen 11 (mkInt true false) Level None false)))] in
+  let t := mkTok 0 0 0 in
+  issued (slots (run (fun _ => []) (fun _ => []) c1)) t /\ lc_lookup (run (fun _ => []) (fun _ => []) c1) t = None /\
+  gens_small (slots (run (fun _ => []) (fun _ => []) (c1 ++ c2))) /\
+  lc_lookup (run (fun _ => []) (fun _ => []) (c1 ++ c2)) (mkTok 0 1 0) = Some 2.
+Proof.
+  cbv zeta. split; [|split; [|split]].
+  - eexists. split; [vm_compute; reflexivity|vm_compute; discriminate].
+  - vm_compute. reflexivity.
+  - intros i sl H. vm_compute in H. destruct i as [|i]; [injection H as <-; vm_compute; reflexivity|destruct i; discriminate].
+  - vm_compute. reflexivity.
+Qed.
